@@ -124,7 +124,7 @@ def project(events):
 
 
 def compare(pred_events, real_events):
-    """('same' | 'order' | 'diverged', index, detail): 'order' = the kernel returned the ready fds of a batch in
+    """('same' | 'order' | 'timing' | 'diverged', index, detail): 'order' = the kernel returned the ready fds of a batch in
     another order than the behaviour TLC picked (a legal difference: the model allows every order)"""
     a, b = project(pred_events), project(real_events)
     # the real trace ends with the teardown drops, which the model does not produce
@@ -133,6 +133,13 @@ def compare(pred_events, real_events):
         if a[i] != b[i]:
             if a[i][0] == "batch" and b[i][0] == "batch" and sorted(json.loads(a[i][1])) == sorted(json.loads(b[i][1])):
                 return "order", i, (a[i], b[i])
+            if a[i][0] == "batch" and b[i][0] == "batch":
+                ma, mb = json.loads(a[i][1]), json.loads(b[i][1])
+                if all(k in mb for k in ma) and len(mb) > len(ma):
+                    # the real batch holds everything the model predicted plus more: the real clock was ahead of the
+                    # model's tick (a loaded machine reaches the dispatch late and a timer of the next tick is already
+                    # due) -- legal, and judged by the contract monitor with the measured timestamps
+                    return "timing", i, (a[i], b[i])
             return "diverged", i, (a[i], b[i])
     if len(a) > len(b):
         return "diverged", n, (a[n], None)
